@@ -25,7 +25,9 @@ func (g *rig) identify(q *rq) (item, body *exec) {
 		ib = idOf(string(b[1 : idLen-1]))
 	}
 	if ct := q.Resp.Get("Content-Type"); strings.HasPrefix(ct, "application/x-e") {
-		ic = idOf(strings.TrimPrefix(ct, "application/x-e"))
+		if rest := strings.TrimPrefix(ct, "application/x-e"); len(rest) >= 6 {
+			ic = idOf(rest[:6])
+		}
 	}
 	g.mu.Lock()
 	defer g.mu.Unlock()
@@ -73,6 +75,17 @@ func (g *rig) judge(q *rq) bool {
 		}
 		if q.Mark == "hit" {
 			g.viol("no-store|served-from-cache"+sfx, "a no-store request was answered from the cache", ex(nil))
+		}
+	}
+	if q.CCLoose != "" {
+		// upper / mixed-case directive: no expectation, observed behaviour is counted
+		switch {
+		case q.CCLoose == "no-store" && q.Mark == "":
+			g.e.Stat("mixed-case-no-store-honoured", 1)
+		case q.CCLoose == "no-store":
+			g.e.Stat("mixed-case-no-store-ignored", 1)
+		case q.CCLoose == "no-cache" && q.Mark == "hit":
+			g.e.Stat("mixed-case-no-cache-ignored(hit)", 1)
 		}
 	}
 	if q.Mark != "hit" {
